@@ -339,7 +339,10 @@ class Gen:
             if isinstance(x, dict):
                 if x.get("k") == "lit" and x["t"] != "b256":
                     lits.append(x)
-                for v in x.values():
+                for key, v in x.items():
+                    # literals inside index expressions keep dynamic indices in range: leave them alone
+                    if (x.get("k") == "index" and key == "i") or key == "path":
+                        continue
                     walk(v)
             elif isinstance(x, list):
                 for v in x:
